@@ -11,7 +11,8 @@ CONSTANTS Creators, MaxPkgs, ATOMIC, PTRACK
 \* PTRACK = FALSE: the setup acknowledgement is queued by value and NewChannel's type assertion on a
 \* pointer fails (the pinned code); TRUE: repaired.
 
-VARIABLES counter,      \* tdsChannelCurFreeId
+VARIABLES closedCh,     \* ids of channels that were closed (Channel.Close removes them from Conn.tdsChannels)
+          counter,      \* tdsChannelCurFreeId
           chans,        \* registered channel ids (Conn.tdsChannels)
           pc, cid,      \* per creator: program counter, id read / reserved
           wire,         \* packets from the peer not yet read by the reader: [ch, kind, val]
@@ -20,10 +21,10 @@ VARIABLES counter,      \* tdsChannelCurFreeId
           got,          \* per channel id: values received, in order
           sentTo,       \* per channel id: values the peer sent, in order
           connErr, nsent, result
-vars == <<counter, chans, pc, cid, wire, ackq, inflight, got, sentTo, connErr, nsent, result>>
+vars == <<closedCh, counter, chans, pc, cid, wire, ackq, inflight, got, sentTo, connErr, nsent, result>>
 Ids == 0..(Cardinality(Creators) + 2)
 
-Init == /\ counter = 1 /\ chans = {0}                    \* channel 0 exists (login channel)
+Init == /\ closedCh = {} /\ counter = 1 /\ chans = {0}                    \* channel 0 exists (login channel)
         /\ pc = [c \in Creators |-> "start"] /\ cid = [c \in Creators |-> 0]
         /\ wire = <<>> /\ ackq = [i \in Ids |-> 0] /\ inflight = [i \in Ids |-> <<>>]
         /\ got = [i \in Ids |-> <<>>] /\ sentTo = [i \in Ids |-> <<>>]
@@ -34,28 +35,28 @@ ReadId(c) == /\ pc[c] = "start"
              /\ IF ATOMIC THEN /\ cid' = [cid EXCEPT ![c] = counter] /\ counter' = counter + 1
                                /\ pc' = [pc EXCEPT ![c] = "lookup"]
                 ELSE /\ cid' = [cid EXCEPT ![c] = counter] /\ pc' = [pc EXCEPT ![c] = "incr"] /\ UNCHANGED counter
-             /\ UNCHANGED <<chans, wire, ackq, inflight, got, sentTo, connErr, nsent, result>>
+             /\ UNCHANGED <<closedCh, chans, wire, ackq, inflight, got, sentTo, connErr, nsent, result>>
 Incr(c) == /\ pc[c] = "incr" /\ counter' = counter + 1 /\ pc' = [pc EXCEPT ![c] = "lookup"]
-           /\ UNCHANGED <<chans, cid, wire, ackq, inflight, got, sentTo, connErr, nsent, result>>
+           /\ UNCHANGED <<closedCh, chans, cid, wire, ackq, inflight, got, sentTo, connErr, nsent, result>>
 Lookup(c) == /\ pc[c] = "lookup"
              /\ pc' = [pc EXCEPT ![c] = IF cid[c] \in chans THEN "start" ELSE "register"]
-             /\ UNCHANGED <<counter, chans, cid, wire, ackq, inflight, got, sentTo, connErr, nsent, result>>
+             /\ UNCHANGED <<closedCh, counter, chans, cid, wire, ackq, inflight, got, sentTo, connErr, nsent, result>>
 Register(c) == /\ pc[c] = "register" /\ chans' = chans \cup {cid[c]}
                /\ pc' = [pc EXCEPT ![c] = "await"]            \* setup packet sent; the peer will acknowledge
                /\ wire' = Append(wire, [ch |-> cid[c], kind |-> "ack", val |-> 0])
-               /\ UNCHANGED <<counter, cid, ackq, inflight, got, sentTo, connErr, nsent, result>>
+               /\ UNCHANGED <<closedCh, counter, cid, ackq, inflight, got, sentTo, connErr, nsent, result>>
 Await(c) == /\ pc[c] = "await" /\ ackq[cid[c]] > 0
             /\ ackq' = [ackq EXCEPT ![cid[c]] = @ - 1]
             /\ result' = [result EXCEPT ![c] = IF PTRACK THEN "ok" ELSE "error"]
             /\ pc' = [pc EXCEPT ![c] = "done"]
-            /\ UNCHANGED <<counter, chans, cid, wire, inflight, got, sentTo, connErr, nsent>>
+            /\ UNCHANGED <<closedCh, counter, chans, cid, wire, inflight, got, sentTo, connErr, nsent>>
 
 \* ---- peer
 PeerSend(i) == /\ nsent < MaxPkgs /\ i \in Ids
                /\ wire' = Append(wire, [ch |-> i, kind |-> "pkg", val |-> nsent + 1])
                /\ nsent' = nsent + 1
                /\ sentTo' = [sentTo EXCEPT ![i] = Append(@, nsent + 1)]
-               /\ UNCHANGED <<counter, chans, pc, cid, ackq, inflight, got, connErr, result>>
+               /\ UNCHANGED <<closedCh, counter, chans, pc, cid, ackq, inflight, got, connErr, result>>
 \* ---- reader goroutine: Conn.ReadFrom routes by header channel
 Route == /\ wire # <<>>
          /\ LET p == Head(wire) IN
@@ -65,17 +66,24 @@ Route == /\ wire # <<>>
                  /\ UNCHANGED connErr
             ELSE connErr' = connErr + 1 /\ UNCHANGED <<ackq, inflight>>
          /\ wire' = Tail(wire)
-         /\ UNCHANGED <<counter, chans, pc, cid, got, sentTo, nsent, result>>
+         /\ UNCHANGED <<closedCh, counter, chans, pc, cid, got, sentTo, nsent, result>>
 \* ---- consumer of channel i
 Recv(i) == /\ i \in chans /\ inflight[i] # <<>>
            /\ got' = [got EXCEPT ![i] = Append(@, Head(inflight[i]))]
            /\ inflight' = [inflight EXCEPT ![i] = Tail(@)]
-           /\ UNCHANGED <<counter, chans, pc, cid, wire, ackq, sentTo, connErr, nsent, result>>
+           /\ UNCHANGED <<closedCh, counter, chans, pc, cid, wire, ackq, sentTo, connErr, nsent, result>>
 
-Next == (\E c \in Creators : ReadId(c) \/ Incr(c) \/ Lookup(c) \/ Register(c) \/ Await(c))
+\* Channel.Close of a logical channel whose owner is done with it: unregister, drop what is queued
+CloseChan(i) == /\ i \in chans /\ i # 0 /\ \E c \in Creators : pc[c] = "done" /\ cid[c] = i
+                /\ chans' = chans \ {i} /\ closedCh' = closedCh \cup {i}
+                /\ inflight' = [inflight EXCEPT ![i] = <<>>]
+                /\ UNCHANGED <<counter, pc, cid, wire, ackq, got, sentTo, connErr, nsent, result>>
+Next == (\E i \in Ids : CloseChan(i)) \/ (\E c \in Creators : ReadId(c) \/ Incr(c) \/ Lookup(c) \/ Register(c) \/ Await(c))
         \/ (\E i \in Ids : PeerSend(i) \/ Recv(i)) \/ Route
 Spec == Init /\ [][Next]_vars
 
+\* ids are never handed out twice, also not after a close
+C12_NoReuseAfterClose == \A i \in closedCh : i \notin chans
 Owners(i) == {c \in Creators : pc[c] \in {"await", "done"} /\ cid[c] = i}
 C12_DistinctIds == \A i \in Ids : Cardinality(Owners(i)) <= 1 /\ (i = 0 => Owners(i) = {})
 C12_SetupSucceedsOnAck == \A c \in Creators : pc[c] = "done" => result[c] = "ok"
